@@ -24,6 +24,7 @@ struct JV {
 
 	bool is(T x) const { return t == x; }
 	JV &set(const std::string &k, const JV &v) { o.emplace_back(k, v); return *this; }
+	JV &put(const std::string &k, const JV &v) { for (auto &kv : o) if (kv.first == k) { kv.second = v; return *this; } o.emplace_back(k, v); return *this; } // replace
 	JV &push(const JV &v) { a.push_back(v); return *this; }
 	const JV *get(const std::string &k) const; // first exact-match member
 	bool has(const std::string &k) const { return get(k) != nullptr; }
